@@ -552,7 +552,7 @@ def step(ctx, i, op):
                 with bundles.entered(op.get("bundle", [])):
                     ctx.sides.append(_fantasize(M, recipe, op))
                 out.stats["probe:fantasy_created"] += 1
-            except (NotImplementedError, RuntimeError, ValueError, AttributeError, IndexError, TypeError) as e:
+            except Exception as e:  # noqa  (SimFault is handled above / re-raised where armed)
                 out.stats["rejected:fantasize_" + type(e).__name__] += 1
                 ctx.failed_since_obs = True
             ctx.mutated_since_obs = True
@@ -708,7 +708,7 @@ def step(ctx, i, op):
             except SimFault:
                 out.stats["fault:failed_fantasy_user_module"] += 1
                 ctx.failed_since_obs = True
-            except (NotImplementedError, RuntimeError, ValueError, AttributeError, IndexError, TypeError) as e:
+            except Exception as e:  # noqa  (SimFault is handled above / re-raised where armed)
                 out.stats["rejected:fantasize_%s_%s" % (kind, type(e).__name__)] += 1
                 out.stats["fault:failed_fantasy"] += 1
                 ctx.failed_since_obs = True
